@@ -19,9 +19,11 @@ import (
 	"os"
 	"regexp"
 	"runtime/debug"
+	"runtime"
 	"sort"
 	"strconv"
 	"strings"
+	"sync/atomic"
 	"testing"
 	"time"
 
@@ -76,8 +78,14 @@ func (x *xctx) tr(format string, a ...interface{}) {
 	}
 }
 
+// liveCtr is bumped after every simulated execution; the worker's stall
+// watchdog exits the process if it stops moving (a real blocking operation
+// outside the simulator's control, e.g. an un-instrumented channel wait).
+var liveCtr int64
+
 // note accumulates scheduler statistics of one simrt.Exec.
 func (x *xctx) note(res simrt.Result) {
+	atomic.AddInt64(&liveCtr, 1)
 	x.execs++
 	x.steps += res.Steps
 	x.simNs += res.SimTimeNs
@@ -394,6 +402,23 @@ func TestVerifWorker(t *testing.T) {
 		out = f
 	}
 	enc := json.NewEncoder(out)
+	go func() {
+		last, since := int64(-1), time.Now()
+		for {
+			time.Sleep(2 * time.Second)
+			cur := atomic.LoadInt64(&liveCtr)
+			if cur != last {
+				last, since = cur, time.Now()
+				continue
+			}
+			if time.Since(since) > 90*time.Second {
+				buf := make([]byte, 1<<20)
+				n := runtime.Stack(buf, true)
+				fmt.Fprintf(os.Stderr, "STALL: no simulated execution finished for 90 s (a task is blocked on something the simulator does not control, or an unbounded loop). Goroutines:\n%s\n", buf[:n])
+				os.Exit(3)
+			}
+		}
+	}()
 	if rp := os.Getenv("VERIF_REPLAY"); rp != "" {
 		data, err := os.ReadFile(rp)
 		if err != nil {
@@ -433,6 +458,7 @@ func TestVerifWorker(t *testing.T) {
 			break
 		}
 		start := time.Now()
+		atomic.AddInt64(&liveCtr, 1)
 		x, v := execEngine(e, simrt.NewTape(s), s, tier, false)
 		r := mkRecord(e, s, x, v, time.Since(start))
 		if v != nil {
